@@ -36,10 +36,14 @@ CLAIMED = {
             "carry no transaction or block are classified as the documents prescribe - a validator refusal "
             "carries an allowed code for a field the documents do not call valid and reaches no device, an "
             "acceptance is not forbidden (simple_commands_conform; Proofs/Classify.lean, incl. parsePath => the "
-            "documents' path grammar); the counterexample F-02b is proved. Spec/C02.lean formalises docs/protocol*.md as Valid / "
+            "documents' path grammar); version-5 sign is classified as the documents prescribe through BOTH "
+            "validation stages (comm/protocol.py _validate_sign, ledger/protocol.py _sign) for every JSON object: "
+            "a refusal carries -103/-102/-101 for a field the documents do not call valid, emits no event and "
+            "satisfies the oracle, and what passes both stages is not forbidden (sign_v5_conform; "
+            "Proofs/ClassifySign.lean); the counterexample F-02b is proved. Spec/C02.lean formalises docs/protocol*.md as Valid / "
             "Unspecified / Invalid zones per field; the oracle allowedObs is evaluated on the implementation's "
             "verdict (code, device contacted) for the full single-field mutation matrix.",
-            "partial: zone agreement for the version-5 message/auth/blocks/brothers fields is decided by the exhaustive mutation matrix "
+            "partial: zone agreement for the blocks/brothers fields of advanceBlockchain / updateAncestorBlock (where F-02b is a proved counterexample) is decided by the exhaustive mutation matrix "
             "(correspondence + oracle), not by a theorem; Spec/C02.lean is a trusted reading of the documents"),
     "C03": ("Lean theorems, full statement for the model of the whole manager (comm/server.py line handling, "
             "comm/protocol.py gate + validators, ledger/protocol*.py handlers, ledger/hsm2dongle.py operations): with "
